@@ -18,8 +18,9 @@ package noderesource
 // to steer generation (ages follow from "time passes", policy "request" keeps system usage within the reservation so
 // that the recorded request-policy finding is not re-reported from here).
 //
-// Projection (field reads only): out.alloc.cpu = {has: key present in node.Status.Allocatable, q: Quantity.Value()}
+// Projection (field reads only): out.alloc.cpu = node.Status.Allocatable[batch-cpu].Value(), 0 when the key is absent
 // (batch-cpu is published in milli-cores, batch-memory in bytes); the same for out.cap from node.Status.Capacity.
+// "Withdrawn" in the sense of the property is absent or zero, so the projection does not distinguish the two.
 
 import (
 	"context"
@@ -451,13 +452,11 @@ func (w *c09rWorld) exec(in c09rIn, t int64) (out vu.Ev, failure string) {
 		return nil, "driver: get node: " + err.Error()
 	}
 	proj := func(rl corev1.ResourceList) vu.Ev {
-		one := func(name corev1.ResourceName) vu.Ev {
-			q, ok := rl[name]
-			e := vu.Ev{"has": ok, "q": int64(0)}
-			if ok {
-				e["q"] = q.Value()
+		one := func(name corev1.ResourceName) int64 {
+			if q, ok := rl[name]; ok {
+				return q.Value()
 			}
-			return e
+			return 0
 		}
 		return vu.Ev{"cpu": one(extension.BatchCPU), "mem": one(extension.BatchMemory)}
 	}
